@@ -39,6 +39,10 @@ add('KF-terminate-no-threads-idle', ['C08'], ['terminate_hung'],
     {'threads': False, 'idle_workers': True, 'lane': 'real', 'scenario': 'terminate'},
     'terminate() on a pool without helper threads (threads=False) while a worker is idle: _help_stuff_finish blocks forever acquiring the in-queue read lock, which an idle worker holds inside its blocking receive; the sentinels that would wake the worker are only sent later in _terminate_pool')
 
+add('KF-ack-after-reap', ['C04', 'C01'], ['loss_never_reported', 'loss_message_wrong_status', 'loss_reported_late'],
+    {'ack_after_reap': True, 'lane': 'real'},
+    'worker death noticed (reaped) before its ACK was processed (result-handler thread delayed): the job is examined again only when some other worker exits later, and is then reported with "exitcode 0" (real-pool occurrence of KF-ack-after-reap)')
+
 fixed = json.load(open(here + '/known_fixed.json')) if os.path.exists(here + '/known_fixed.json') else []
 json.dump({'findings': F, 'fixed': fixed}, open(here + '/known_findings.json', 'w'), indent=1)
 print(len(F), 'finding keys;', len(fixed), 'fixed entries')
